@@ -550,6 +550,23 @@ func (r *run) checkCalls(t fataler, cmds []command, status map[string]string) {
 					return false
 				}
 			}
+			if len(c.argKey) == 0 {
+				// no keyed comparison for this command kind (LIST, SEARCH, FETCH):
+				// a string argument of the call that looks like payload must at
+				// least be one of the arguments this command carried, otherwise a
+				// later command of the same kind is the owner
+				for _, v := range call.Args {
+					if s, ok := callArgString(v); ok && strings.Contains(s, "canary") {
+						carried := false
+						for _, a := range c.args {
+							carried = carried || a.val == s
+						}
+						if !carried {
+							return false
+						}
+					}
+				}
+			}
 			return true
 		}
 		found := -1
